@@ -118,15 +118,16 @@ def check_opcode_refusal(prog, run):
     tur = prog.cls("pyscsi.pyscsi.scsi_cdb_testunitready", "TestUnitReady")
     file = prog.rel(prog.module(CMD_MOD))
     install_watches(prog)
-    for v in (0x60, 0x7E, 0x7F, 0xC0, 0xD5, 0xFF):
+    # (and values that are no operation code at all: beyond one byte, or negative -- a table indexed by them would wrap around)
+    for v in (0x60, 0x7E, 0x7F, 0xC0, 0xD5, 0xFF, 0x100, 0x112, 0x7FF, -1, -18, -94, -120, -238, -256):
         def t(v=v):
             op = I.instantiate(opcls, ["X", v, {}], {}, None, _F())
             return I.instantiate(tur, [op], {}, None, _F())
         for p in I.explore(t, max_paths=4):
-            c = "command with opcode %#04x" % v
+            c = "command with opcode %s" % (("%#04x" % v) if v >= 0 else str(v))
             ec = p.raised.exc_class() if not p.returned else None
             if p.returned or ec is None or ec.name != "OpcodeException":
-                run.violation("opcode-refusal", c, "opcode %#04x (no fixed CDB length) is not refused with OpcodeException" % v, file, None)
+                run.violation("opcode-refusal", c, "opcode %s (no fixed CDB length) is not refused with OpcodeException" % c.split()[-1], file, None)
             elif any(e["kind"] == "attr-store" and e["name"] in ("_dataout", "_datain") for e in p.events):
                 run.violation("refusal-before-initialisation", c, "buffers are allocated before the opcode is refused", file, None)
             else:
@@ -141,10 +142,10 @@ def check_prin(prog, run):
         raise AnalysisError("anchor-missing", "SCSI.persistentreservein")
     file = prog.rel(fn.module)
     for setname in sets_offering(prog, fspec):
-        for sa in (0x04, 0x05, 0x1F, 0x100):
+        for sa in (0x04, 0x05, 0x1F, 0x100, -1, -2, -3, -4, -5):
             for fp in eval_facade(prog, "persistentreservein", fspec, setname, "none", check_condition="never", sa=sa):
                 p = fp.path
-                c = "SCSI.persistentreservein service_action=%#x on %s" % (sa, setname)
+                c = "SCSI.persistentreservein service_action=%s on %s" % (("%#x" % sa) if sa >= 0 else sa, setname)
                 sg = [e for i, e in fp.events("external-call") if e["name"] == "sgio.execute"]
                 ec = p.raised.exc_class() if not p.returned else None
                 if p.returned or ec is None or ec.name != "ValueError":
